@@ -93,4 +93,24 @@ def extract():
         C["prince_passes_remaining_size"] = True
     else:
         raise ExtractError("create_prince_wordlist: unexpected create_guesses arguments %r" % kw)
+    # --- random_walk: what happens when rounding leaves the running sum below the draw?
+    rw = None
+    for n in ast.walk(_parse("lib_guesser/pcfg_grammar.py")):
+        if isinstance(n, ast.FunctionDef) and n.name == "random_walk":
+            rw = n
+    if rw is None:
+        raise ExtractError("random_walk not found")
+    sel = [n for n in ast.walk(rw) if isinstance(n, ast.For) and any(
+        isinstance(x, ast.Compare) and isinstance(x.left, ast.Name) and x.left.id == "cur_prob" for x in ast.walk(n))]
+    # the outer per-position loop contains the inner one: keep the loops that directly test cur_prob
+    sel = [n for n in sel if any(isinstance(b, ast.If) and any(isinstance(x, ast.Name) and x.id == "cur_prob" for x in ast.walk(b.test)) for b in n.body)]
+    if len(sel) != 2:
+        raise ExtractError("random_walk: expected two selection loops, found %d" % len(sel))
+    has_else = [bool(n.orelse) for n in sel]
+    if has_else == [False, False]:
+        C["walk_fallback_last"] = False
+    elif has_else == [True, True]:
+        C["walk_fallback_last"] = True
+    else:
+        raise ExtractError("random_walk: selection loops disagree about the fall-back")
     return C
